@@ -167,7 +167,7 @@ func (ms *monitorState) monitor(t *rapid.T, ev *world.Event) {
 		if reads == 0 {
 			fail(t, w, "%s with key caching disabled issued no metastore read (something was retained): %s", ev.Kind, callsString(calls))
 		}
-		for _, si := range w.Secrets.Infos()[ev.SecretFrom:ev.SecretTo] {
+		for _, si := range w.Secrets.InfosRange(ev.SecretFrom, ev.SecretTo) {
 			if si.Closed == 0 {
 				if w.IsParentMismatchSKLeak(ev, si) && kit.KnownOpen("C20", "sk-ref-leak-on-parent-mismatch") {
 					kit.Rec.Known("sk-ref-leak-on-parent-mismatch", "duplicate-IK fallback onto an IK wrapped by another SK: the SK looked up to unwrap it is never released, so it is retained even with key caching disabled")
